@@ -7,8 +7,9 @@ correspondence streams `mo` / `shl` (same operation sequences on the real object
 all observables compared after every operation) and by `Iodata/Gen/OrbitalFields.lean`.
 
 History statements quantify over ARBITRARY operation lists: `Reachable m` = some successful
-construction followed by any `List Op`; they are proved through the invariant `Inv`
-(`construct_ok_iff`, `inv_step`, `inv_run`).
+construction followed by any `List Op`, where `Op` = construct | assignment of occs / coeffs /
+energies / irreps / occs_aminusb | occsa= | occsb= | kind= | norba= | norbb=; they are proved through
+the invariant `Inv` (`construct_ok_iff`, `inv_step`, `inv_run`).
 -/
 import Iodata.Lemmas.Orbitals
 import Iodata.Gen.OrbitalFields
@@ -18,8 +19,9 @@ set_option linter.unusedSimpArgs false
 namespace Iodata.Props.C12
 open Iodata.Orb
 
-/-- 0. Every object reached by any history satisfies the invariant: kind and counts fit, every
-array that is set has `norb` entries, `occs_aminusb` only on restricted orbitals. -/
+/-- 0. Every object reached by any history (including re-assignments of `kind`, `norba`, `norbb`)
+satisfies the invariant: kind and counts fit, every array that is set has `norb` entries,
+`occs_aminusb` only on restricted orbitals. -/
 theorem invariant_all_histories {a m0 : MO} (hc : construct a = .ok m0) (ops : List Op) : Inv (run m0 ops) :=
   inv_run (inv_construct hc) ops
 
@@ -175,6 +177,235 @@ theorem nbasis_spec (s : Shell) :
   · intro h; simpa [Shell.nbasis] using nbasisFrom_legal _ 0 h
   · intro h; exact nbasisFrom_illegal _ 0 h
 
+/-! ### re-assignment of `kind`, `norba`, `norbb` after construction -/
+
+/-- 10. In a reachable object `mo.kind = k`, `mo.norba = v`, `mo.norbb = v` either raise and leave the
+object unchanged, or store exactly the assigned value and the resulting object again satisfies the
+invariant (kind fits the counts, every stored array has the new `norb` entries, `occs_aminusb` only
+on restricted orbitals). -/
+theorem reassign_raises_or_preserves {m : MO} (h : Reachable m) :
+    (∀ k, (∃ e, step m (.setKind k) = (m, some e)) ∨
+      (step m (.setKind k) = ({ m with kind := k }, none) ∧ Inv { m with kind := k })) ∧
+    (∀ v, (∃ e, step m (.setNorba v) = (m, some e)) ∨
+      (step m (.setNorba v) = ({ m with norba := v }, none) ∧ Inv { m with norba := v })) ∧
+    (∀ v, (∃ e, step m (.setNorbb v) = (m, some e)) ∨
+      (step m (.setNorbb v) = ({ m with norbb := v }, none) ∧ Inv { m with norbb := v })) := by
+  have hi := inv_reachable h
+  refine ⟨fun k => ?_, fun v => ?_, fun v => ?_⟩
+  · rcases reassign_cases m { m with kind := k } (vKind k) (m.kind == k) with he | he
+    · exact Or.inl he
+    · have := inv_setKind hi k
+      refine Or.inr ⟨he, ?_⟩
+      unfold setKind at this; rw [he] at this; exact this
+  · rcases reassign_cases m { m with norba := v } (vNorbab m true v) (m.norba == v) with he | he
+    · exact Or.inl he
+    · have := inv_setNorba hi v
+      refine Or.inr ⟨he, ?_⟩
+      unfold setNorba at this; rw [he] at this; exact this
+  · rcases reassign_cases m { m with norbb := v } (vNorbab m false v) (m.norbb == v) with he | he
+    · exact Or.inl he
+    · have := inv_setNorbb hi v
+      refine Or.inr ⟨he, ?_⟩
+      unfold setNorbb at this; rw [he] at this; exact this
+
+/-- 10a. `mo.kind = k` on a reachable object is accepted exactly when the object with the new kind
+satisfies the invariant, i.e. exactly when the constructor would accept it. -/
+theorem setKind_accepted_iff {m : MO} (h : Reachable m) (k : Kind) :
+    (step m (.setKind k)).2 = none ↔ Inv { m with kind := k } :=
+  reassign_ok_iff (inv_reachable h) (setKind_same m k) (fun hi => vKind_of_counts k hi.1)
+
+/-- 10b. … same for `mo.norba = v` -/
+theorem setNorba_accepted_iff {m : MO} (h : Reachable m) (v : Option Nat) :
+    (step m (.setNorba v)).2 = none ↔ Inv { m with norba := v } :=
+  reassign_ok_iff (inv_reachable h) (setNorba_same m v) (fun hi => vNorba_of_counts v hi.1)
+
+/-- 10c. … and `mo.norbb = v` -/
+theorem setNorbb_accepted_iff {m : MO} (h : Reachable m) (v : Option Nat) :
+    (step m (.setNorbb v)).2 = none ↔ Inv { m with norbb := v } :=
+  reassign_ok_iff (inv_reachable h) (setNorbb_same m v) (fun hi => vNorbb_of_counts v hi.1)
+
+/-- 10d. Unrestricted orbitals, spelled out: a new `norba` is accepted exactly when it is the stored
+one or no array is stored; symmetrically for `norbb`.  (Restricted and generalized orbitals never
+accept a different count, see `count_change_rejected`.) -/
+theorem setNorb_unrestricted_accepted_iff {m : MO} (h : Reachable m) (hk : m.kind = .unrestricted) (k : Nat) :
+    ((step m (.setNorba (some k))).2 = none ↔ (m.norba = some k ∨ ∀ f, get m f = none)) ∧
+    ((step m (.setNorbb (some k))).2 = none ↔ (m.norbb = some k ∨ ∀ f, get m f = none)) := by
+  have hi := inv_reachable h
+  obtain ⟨na, nb, hna, hnb, hn⟩ := inv_unrestricted hi hk
+  have hc := hi.1
+  unfold CountsOk at hc; simp only [hk] at hc
+  constructor
+  · rw [setNorba_accepted_iff h]
+    constructor
+    · intro hi'
+      by_cases hall : ∀ f, get m f = none
+      · exact Or.inr hall
+      · obtain ⟨f, hf⟩ := Classical.not_forall.mp hall
+        cases hg : get m f with
+        | none => exact absurd hg hf
+        | some a =>
+          have h1 := hi.2.1 f a hg
+          have h2 := hi'.2.1 f a (by cases f <;> exact hg)
+          rw [hn] at h1
+          simp only [norb, hk, hnb] at h2
+          have e1 := Option.some.inj h1
+          have e2 := Option.some.inj h2
+          left; rw [hna]; congr 1; omega
+    · rintro (he | hall)
+      · rw [setNorba_same m (some k) (by simp [he])]; exact hi
+      · refine ⟨?_, ?_, ?_⟩
+        · unfold CountsOk; simp only [hk]; exact ⟨rfl, hc.2⟩
+        · intro f a hg
+          have : get m f = some a := by cases f <;> exact hg
+          rw [hall f] at this; cases this
+        · intro hne; exact absurd (hall .aminusb) hne
+  · rw [setNorbb_accepted_iff h]
+    constructor
+    · intro hi'
+      by_cases hall : ∀ f, get m f = none
+      · exact Or.inr hall
+      · obtain ⟨f, hf⟩ := Classical.not_forall.mp hall
+        cases hg : get m f with
+        | none => exact absurd hg hf
+        | some a =>
+          have h1 := hi.2.1 f a hg
+          have h2 := hi'.2.1 f a (by cases f <;> exact hg)
+          rw [hn] at h1
+          simp only [norb, hk, hna] at h2
+          have e1 := Option.some.inj h1
+          have e2 := Option.some.inj h2
+          left; rw [hnb]; congr 1; omega
+    · rintro (he | hall)
+      · rw [setNorbb_same m (some k) (by simp [he])]; exact hi
+      · refine ⟨?_, ?_, ?_⟩
+        · unfold CountsOk; simp only [hk]; exact ⟨hc.1, rfl⟩
+        · intro f a hg
+          have : get m f = some a := by cases f <;> exact hg
+          rw [hall f] at this; cases this
+        · intro hne; exact absurd (hall .aminusb) hne
+
+/-- 11. The exception of a rejected re-assignment to a DIFFERENT value (any object `m`; `m'` is the
+object with the new value): `ValueError` when the new kind and counts contradict each other,
+otherwise `TypeError` when a stored array does not have the new `norb` entries, otherwise
+`ValueError` for a stored `occs_aminusb` on a kind that is no longer restricted.  The object is
+unchanged in every case. -/
+theorem setKind_rejects (m : MO) (k : Kind) (hne : m.kind ≠ k) :
+    (¬ CountsOk { m with kind := k } → step m (.setKind k) = (m, some .valueError)) ∧
+    (CountsOk { m with kind := k } →
+      (∃ f x, get m f = some x ∧ shapeOk { m with kind := k } x.length = false) →
+      step m (.setKind k) = (m, some .typeError)) ∧
+    (CountsOk { m with kind := k } →
+      (∀ f x, get m f = some x → shapeOk { m with kind := k } x.length = true) → m.aminusb ≠ none →
+      k ≠ .restricted → step m (.setKind k) = (m, some .valueError)) := by
+  have hs : (m.kind == k) = false := beq_eq_false_iff_ne.mpr hne
+  have := reassign_error_class (m := m) (m' := { m with kind := k }) (own := vKind k)
+    (fun hc => vKind_of_counts k hc) (vKind_err k)
+  simp only [step, setKind, hs]
+  refine ⟨this.1, fun hc ⟨f, x, hg, hx⟩ => this.2.1 hc ⟨f, x, by cases f <;> exact hg, hx⟩,
+    fun hc hall => this.2.2 hc (fun f x hg => hall f x (by cases f <;> exact hg))⟩
+
+/-- 11b. … for `mo.norba = v` -/
+theorem setNorba_rejects (m : MO) (v : Option Nat) (hne : m.norba ≠ v) :
+    (¬ CountsOk { m with norba := v } → step m (.setNorba v) = (m, some .valueError)) ∧
+    (CountsOk { m with norba := v } →
+      (∃ f x, get m f = some x ∧ shapeOk { m with norba := v } x.length = false) →
+      step m (.setNorba v) = (m, some .typeError)) ∧
+    (CountsOk { m with norba := v } →
+      (∀ f x, get m f = some x → shapeOk { m with norba := v } x.length = true) → m.aminusb ≠ none →
+      m.kind ≠ .restricted → step m (.setNorba v) = (m, some .valueError)) := by
+  have hs : (m.norba == v) = false := beq_eq_false_iff_ne.mpr hne
+  have := reassign_error_class (m := m) (m' := { m with norba := v }) (own := vNorbab m true v)
+    (fun hc => vNorba_of_counts v hc) (vNorbab_err m true v)
+  simp only [step, setNorba, hs]
+  refine ⟨this.1, fun hc ⟨f, x, hg, hx⟩ => this.2.1 hc ⟨f, x, by cases f <;> exact hg, hx⟩,
+    fun hc hall => this.2.2 hc (fun f x hg => hall f x (by cases f <;> exact hg))⟩
+
+/-- 11c. … and `mo.norbb = v` -/
+theorem setNorbb_rejects (m : MO) (v : Option Nat) (hne : m.norbb ≠ v) :
+    (¬ CountsOk { m with norbb := v } → step m (.setNorbb v) = (m, some .valueError)) ∧
+    (CountsOk { m with norbb := v } →
+      (∃ f x, get m f = some x ∧ shapeOk { m with norbb := v } x.length = false) →
+      step m (.setNorbb v) = (m, some .typeError)) ∧
+    (CountsOk { m with norbb := v } →
+      (∀ f x, get m f = some x → shapeOk { m with norbb := v } x.length = true) → m.aminusb ≠ none →
+      m.kind ≠ .restricted → step m (.setNorbb v) = (m, some .valueError)) := by
+  have hs : (m.norbb == v) = false := beq_eq_false_iff_ne.mpr hne
+  have := reassign_error_class (m := m) (m' := { m with norbb := v }) (own := vNorbab m false v)
+    (fun hc => vNorbb_of_counts v hc) (vNorbab_err m false v)
+  simp only [step, setNorbb, hs]
+  refine ⟨this.1, fun hc ⟨f, x, hg, hx⟩ => this.2.1 hc ⟨f, x, by cases f <;> exact hg, hx⟩,
+    fun hc hall => this.2.2 hc (fun f x hg => hall f x (by cases f <;> exact hg))⟩
+
+/-- 12. The defect this closes (unrestricted orbitals with a stored array): a different `norba` or
+`norbb` is refused with `TypeError`, nothing changes. -/
+theorem count_change_with_arrays_rejected {m : MO} (h : Reachable m) (hk : m.kind = .unrestricted)
+    {f : Fld} {a : List Rat} (hg : get m f = some a) (k : Nat) :
+    (m.norba ≠ some k → step m (.setNorba (some k)) = (m, some .typeError)) ∧
+    (m.norbb ≠ some k → step m (.setNorbb (some k)) = (m, some .typeError)) := by
+  have hi := inv_reachable h
+  obtain ⟨na, nb, hna, hnb, hn⟩ := inv_unrestricted hi hk
+  have hlen : a.length = na + nb := by
+    have := hi.2.1 f a hg; rw [hn] at this; exact (Option.some.inj this).symm
+  constructor
+  · intro hne
+    refine (setNorba_rejects m (some k) hne).2.1 ?_ ⟨f, a, hg, ?_⟩
+    · unfold CountsOk; simp [hk, hnb]
+    · have : k ≠ na := fun e => hne (by rw [hna, e])
+      simp [shapeOk, norb, hk, hnb, hlen]; omega
+  · intro hne
+    refine (setNorbb_rejects m (some k) hne).2.1 ?_ ⟨f, a, hg, ?_⟩
+    · unfold CountsOk; simp [hk, hna]
+    · have : k ≠ nb := fun e => hne (by rw [hnb, e])
+      simp [shapeOk, norb, hk, hna, hlen]; omega
+
+/-- 12b. Counts that contradict the kind are refused with `ValueError`: `None` on (un)restricted
+orbitals, a number on generalized ones, and on restricted orbitals any count different from the
+other one (so a restricted object never changes its counts). -/
+theorem count_change_rejected {m : MO} (h : Reachable m) :
+    (m.kind ≠ .generalized → step m (.setNorba none) = (m, some .valueError) ∧
+      step m (.setNorbb none) = (m, some .valueError)) ∧
+    (m.kind = .generalized → ∀ k, step m (.setNorba (some k)) = (m, some .valueError) ∧
+      step m (.setNorbb (some k)) = (m, some .valueError)) ∧
+    (m.kind = .restricted → ∀ k, m.norba ≠ some k → step m (.setNorba (some k)) = (m, some .valueError) ∧
+      step m (.setNorbb (some k)) = (m, some .valueError)) := by
+  have hi := inv_reachable h
+  refine ⟨fun hk => ?_, fun hk k => ?_, fun hk k hne => ?_⟩
+  · simp [step, setNorba, setNorbb, reassign, vNorbab, hk]
+  · simp [step, setNorba, setNorbb, reassign, vNorbab, hk]
+  · obtain ⟨n, hna, hnb, _⟩ := inv_restricted hi hk
+    have h1 : ¬ (some k = m.norbb) := fun e => hne (by rw [hna, ← hnb, e])
+    have h2 : ¬ (some k = m.norba) := fun e => hne e.symm
+    simp [step, setNorba, setNorbb, reassign, vNorbab, hk, h1, h2]
+
+/-- 12c. Kinds that contradict the counts: switching a reachable object to or from `generalized`
+(or to an illegal name) is refused with `ValueError`; switching restricted orbitals with `n > 0`
+orbitals and a stored array to `unrestricted` is refused with `TypeError`. -/
+theorem kind_change_rejected {m : MO} (h : Reachable m) (k : Kind) (hne : m.kind ≠ k) :
+    ((m.kind = .generalized ∨ k = .generalized ∨ k = .other) → step m (.setKind k) = (m, some .valueError)) ∧
+    (m.kind = .restricted → k = .unrestricted → ∀ f a, get m f = some a → a ≠ [] →
+      step m (.setKind k) = (m, some .typeError)) := by
+  have hi := inv_reachable h
+  have hc := hi.1
+  constructor
+  · intro hcase
+    refine (setKind_rejects m k hne).1 ?_
+    unfold CountsOk at hc ⊢
+    rcases hcase with hg | hg | hg
+    · rw [hg] at hc hne
+      cases k <;> simp_all
+    · subst hg
+      cases hk : m.kind <;> simp_all <;> (intro hn; rw [hn] at hc; simp at hc)
+    · subst hg; simp
+  · intro hr hu f a hg hnil
+    subst hu
+    obtain ⟨n, hna, hnb, hn⟩ := inv_restricted hi hr
+    have hlen : a.length = n := by
+      have := hi.2.1 f a hg; rw [hn] at this; exact (Option.some.inj this).symm
+    refine (setKind_rejects m .unrestricted hne).2.1 ?_ ⟨f, a, hg, ?_⟩
+    · unfold CountsOk; simp [hna, hnb]
+    · have : a.length ≠ 0 := fun e => hnil (List.eq_nil_of_length_eq_zero e)
+      simp [shapeOk, norb, hna, hnb, hlen]; omega
+
 /-! ### tie to the source (regenerated each run) -/
 
 /-- field order and validators of `MolecularOrbitals` are the ones the model transcribes -/
@@ -204,6 +435,46 @@ example :
     let m : MO := { kind := .unrestricted, norba := some 2, norbb := some 1, occs := some [1, 1, 0] }
     (step m (.set .energies (some [1, 2]))).2 = some .typeError ∧
     (step m (.setOccsa [1/2, 1/4])).1.occs = some [1/2, 1/4, 0] := by decide +kernel
+
+/-- the repaired defect, accepted side: without arrays an unrestricted object may change its counts,
+the same value may always be re-assigned, and restricted <-> unrestricted is possible without arrays -/
+example :
+    let m : MO := { kind := .unrestricted, norba := some 2, norbb := some 1 }
+    let w : MO := { kind := .unrestricted, norba := some 2, norbb := some 1, occs := some [1, 1, 0] }
+    let r : MO := { kind := .restricted, norba := some 2, norbb := some 2 }
+    construct m = .ok m ∧ construct w = .ok w ∧ construct r = .ok r ∧
+    step m (.setNorba (some 3)) = ({ m with norba := some 3 }, none) ∧
+    norb (step m (.setNorba (some 3))).1 = some 4 ∧
+    step w (.setNorba (some 2)) = (w, none) ∧ step w (.setKind .unrestricted) = (w, none) ∧
+    step r (.setKind .unrestricted) = ({ r with kind := .unrestricted }, none) ∧
+    norb (step r (.setKind .unrestricted)).1 = some 4 := by decide +kernel
+
+/-- the repaired defect, rejected side (all of these were accepted before the `fix:` commit): counts
+of unrestricted orbitals with arrays, kind switches that double / halve `norb` or contradict the
+counts, `occs_aminusb` surviving a switch away from restricted -/
+example :
+    let w : MO := { kind := .unrestricted, norba := some 2, norbb := some 1, occs := some [1, 1, 0] }
+    let r : MO := { kind := .restricted, norba := some 2, norbb := some 2, energies := some [1, 2] }
+    let g : MO := { kind := .generalized, norba := none, norbb := none, occs := some [1, 0] }
+    let z : MO := { kind := .restricted, norba := some 0, norbb := some 0, occs := some [], aminusb := some [] }
+    let u : MO := { kind := .unrestricted, norba := some 2, norbb := some 1 }
+    construct w = .ok w ∧ construct r = .ok r ∧ construct g = .ok g ∧ construct z = .ok z ∧ construct u = .ok u ∧
+    step w (.setNorba (some 3)) = (w, some .typeError) ∧ step w (.setNorbb (some 0)) = (w, some .typeError) ∧
+    step w (.setNorba none) = (w, some .valueError) ∧
+    step r (.setKind .unrestricted) = (r, some .typeError) ∧ step r (.setNorba (some 3)) = (r, some .valueError) ∧
+    step g (.setKind .restricted) = (g, some .valueError) ∧ step g (.setNorba (some 2)) = (g, some .valueError) ∧
+    step z (.setKind .unrestricted) = (z, some .valueError) ∧
+    step u (.setKind .restricted) = (u, some .valueError) ∧ step u (.setKind .other) = (u, some .valueError) := by
+  decide +kernel
+
+/-- the hypotheses of `count_change_with_arrays_rejected` / `setNorb_unrestricted_accepted_iff` are
+satisfiable: a reachable unrestricted object with a stored array, reached through re-assignments -/
+example : Reachable (run { kind := .restricted, norba := some 1, norbb := some 1 }
+    [.setKind .unrestricted, .setNorba (some 2), .set .occs (some [1, 1, 0])]) ∧
+    run { kind := .restricted, norba := some 1, norbb := some 1 }
+      [.setKind .unrestricted, .setNorba (some 2), .set .occs (some [1, 1, 0])] =
+    { kind := .unrestricted, norba := some 2, norbb := some 1, occs := some [1, 1, 0] } :=
+  ⟨⟨{ kind := .restricted, norba := some 1, norbb := some 1 }, _, _, by decide +kernel, rfl⟩, by decide +kernel⟩
 
 /-- numpy broadcasting is part of the model: a one-element right-hand side fills the block -/
 example :
